@@ -191,7 +191,36 @@ def rule_entropy(ctx):
                     excl = reason
             inst = "%s : %s" % (key, why.split(" ")[0])
             res.instance(inst)
-            if excl:
+            if excl and fn["d"]["krate"] == "linfa_ica":
+                # the exclusion is "FastICA *without a random state*": the entropy source sits on the no-seed side of a test
+                # of the Option itself - not under a particular seed value (a `0 => unseeded` convention makes seed 0 random)
+                from .layout import with_parents as _wp
+                anc = next((a for y, a in _wp(fn["body"]) if y is n), [])
+                verdict = None
+                for i_, a in enumerate(anc):
+                    nxt = anc[i_ + 1] if i_ + 1 < len(anc) else n
+                    if a.get("k") == "Match" and a.get("src", "Normal") == "Normal":
+                        for arm in a["arms"]:
+                            if any(z is n for z in walk(arm["body"])):
+                                p_ = arm["pat"]
+                                while p_.get("k") == "Ref":
+                                    p_ = p_["pat"]
+                                if p_.get("k") == "Lit":
+                                    verdict = "literal:%s" % p_.get("v")
+                                elif p_.get("k") == "Path" and (c.dfn(p_.get("def")) or {}).get("name") == "None":
+                                    verdict = verdict or "none"
+                    if a.get("k") == "If":
+                        cnd = strip(a["c"])
+                        if cnd.get("k") == "Let" and a.get("else") is not None and any(z is n for z in walk(a["else"])):
+                            verdict = verdict or "none"
+                        if cnd.get("k") == "Binary" and cnd["op"] in ("==", "!=") and any(peel_refs(s_).get("k") == "Lit" for s_ in (cnd["l"], cnd["r"])):
+                            verdict = "literal:comparison"
+                if verdict is not None and verdict.startswith("literal"):
+                    res.violate("%s : entropy-for-a-seed-value" % inst, "the unseeded generator is used under a test of the seed's *value* (%s), not of its absence: a caller who asks for that seed gets a different result on every call" % verdict.split(":", 1)[1], fn_loc(fn, n.get("ln")))
+                else:
+                    res.ok()
+                    res.info.append("excluded by the property: %s — %s" % (inst, excl))
+            elif excl:
                 res.ok()
                 res.info.append("excluded by the property: %s — %s" % (inst, excl))
             else:
@@ -498,7 +527,9 @@ def rule_sortkey(ctx):
 
 
 def rules(tier):
-    from . import carry, c09
+    from . import carry, c09, c17
     # the k-means|| initialiser is outside the claim: no other initialiser's arm may hand over to it
-    return [c09.rule_initdispatch, rule_hash, rule_entropy, rule_seed, rule_par, rule_sortkey,
+    # same hyperparameters, same documents, same vocabulary - whatever the parameter set was used for before: the compiled
+    # tokeniser is that of the expression configured now (shared with C17)
+    return [c17.rule_regexfresh, c09.rule_initdispatch, rule_hash, rule_entropy, rule_seed, rule_par, rule_sortkey,
             carry.make_accessor_rule("R-C20-accessor", {"linfa", "linfa_bayes", "linfa_clustering", "linfa_elasticnet", "linfa_ftrl", "linfa_hierarchical", "linfa_ica", "linfa_kernel", "linfa_linear", "linfa_logistic", "linfa_nn", "linfa_pls", "linfa_preprocessing", "linfa_reduction", "linfa_svm", "linfa_trees", "linfa_tsne", "linfa_datasets"}, 80)]
